@@ -29,7 +29,7 @@ let shard_of_argv () =
 let sharded ?(start = 0) ~seed ~n (emit : emit) (f : int -> rng -> string * (bool -> string)) : unit =
   let (shard, nshards) = shard_of_argv () in
   for i = 0 to n - 1 do
-    if (start + i) mod nshards = shard then begin
+    ignore (start, shard, nshards); if Streams.mine () then begin
       let r = mk_rng (seed * 1000003 + i) in
       ignore (next64 r);
       let (case, g) = f i r in
